@@ -163,7 +163,8 @@ Next1 ==
        [] k = "CamFrame" -> /\ Flag(If(~p.camRun[e.s], "FrameWhileCameraStopped") \o Quiet(e))
                             /\ p' = [p EXCEPT !.cam[e.s] = Append(p.cam[e.s], [hw |-> e.hw, w |-> e.w, h |-> e.h, ty |-> e.ty, tag |-> e.tag])]
        [] k = "CamFail" -> p' = [p EXCEPT !.camFail[e.s] = TRUE] /\ NoFlag
-       [] k = "StorFail" -> p' = [p EXCEPT !.storFail[e.s] = TRUE] /\ NoFlag
+       \* a storage device that fails an append leaves the running state by itself (it reports a non-running state)
+       [] k = "StorFail" -> p' = [p EXCEPT !.storFail[e.s] = TRUE, !.storRun[e.s] = FALSE] /\ NoFlag
        [] k = "StorStart" -> Flag(If(p.storRun[e.s], "StorStartWhileRunning") \o Quiet(e)) /\ p' = [p EXCEPT !.storRun[e.s] = TRUE]
        [] k = "StorStop" -> Flag(If(~p.storRun[e.s], "StorStopWhileStopped")) /\ p' = [p EXCEPT !.storRun[e.s] = FALSE]
        [] k = "StorAppend" -> /\ Flag(StorAppendRules(e.s, e))
